@@ -513,3 +513,59 @@ Section Compositional.
     build (SRe r c None) = build (SRe r c (Some Fullmatch)).
   Proof. reflexivity. Qed.
 End Compositional.
+
+(** ** Non-vacuity: one concrete oracle on which the premises of the laws above hold and
+    the interesting branches are taken. *)
+Module Examples.
+  (* value 0: an int; value 1: an object whose comparison raises KeyboardInterrupt;
+     value 2: a mapping {0: 0, 1: <missing>} ; value 3: None *)
+  Definition test (a : atom) (i : nat) : tri :=
+    match a, i with
+    | AInst _, 0 => TT
+    | AInst _, _ => FF
+    | ACmp _ _, 1 => RR EKeyboardInterrupt
+    | ACmp OGt _, 0 => TT
+    | ACmp _ _, _ => FF
+    | AIn _, 1 => RR ENotCallable            (* a TypeError subclass from the membership test *)
+    | AIn _, _ => FF
+    | ACallable, _ => FF
+    | ARe _ _, _ => RR ETypeError
+    end.
+  Definition len (i : nat) : lenres := match i with 2 => LN 2 | _ => LR ETypeError end.
+  Definition x0 := V 0 false [] (Some ETypeError).
+  Definition x1 := V 1 false [] (Some ETypeError).
+  Definition x2 := V 2 false [(x0, GV x0); (x1, GE EKeyError)] None.
+  Definition x3 := V 3 true [] (Some ETypeError).
+  Notation run := (run test len).
+
+  Example or_stops_at_non_Exception :
+    run (VOr [VCallable; VNum (P 0) OLt; VInst (P 0)]) x1 = Raise EKeyboardInterrupt
+    /\ run (VInst (P 0)) x0 = Ok /\ run (VOr [VCallable; VNum (P 0) OLt; VInst (P 0)]) x0 = Ok.
+  Proof. repeat split; reflexivity. Qed.
+
+  Example and_first_failure_in_order :
+    run (VAnd false [VInst (P 0); VCallable; VNum (P 0) OLt]) x0 = Raise ENotCallable.
+  Proof. reflexivity. Qed.
+
+  Example not_catches_subclasses_only_of_listed :
+    run (VNot VCallable PDef [ETypeError]) x0 = Ok                 (* NotCallableError is a TypeError *)
+    /\ run (VNot VCallable PDef [EValueError]) x0 = Raise ENotCallable
+    /\ run (VNot (VInst (P 0)) PDef [ETypeError]) x0 = Raise EValueError
+    /\ run (VNot (VNum (P 0) OLt) PDef [EException]) x1 = Raise EKeyboardInterrupt.
+  Proof. repeat split; reflexivity. Qed.
+
+  Example in_absorbs_typeerror_subclass :
+    run (VIn (P 0) (P 0)) x1 = Raise EValueError.
+  Proof. reflexivity. Qed.
+
+  Example deep_mapping_value_lookup_fails :
+    run (VDeepMap (VOr []) VCallable None) x2 = Raise EValueError
+    /\ run (VDeepMap (VAnd false []) (VInst (P 0)) None) x2 = Raise EKeyError
+    /\ run (VDeepIt (VAnd false []) None) x2 = Ok
+    /\ run (VDeepIt (VInst (P 0)) (Some (VMaxLen 2))) x2 = Raise ETypeError
+    /\ run (VDeepIt (VInst (P 0)) (Some (VMaxLen 1))) x2 = Raise EValueError.
+  Proof. repeat split; reflexivity. Qed.
+
+  Example optional_none : run (VOpt (VOr [])) x3 = Ok /\ run (VOpt (VOr [])) x0 = Raise EValueError.
+  Proof. split; reflexivity. Qed.
+End Examples.
